@@ -222,11 +222,9 @@ func (m *clientHelloMsg) marshal() []byte {
 			if m.extendedRandomEnabled {
 				b.AddUint16(extensionExtendedRandom)
 				b.AddUint16LengthPrefixed(func(b *cryptobyte.Builder) {
-					exLen := len(m.extendedRandom)
-					fullLength := 2 + exLen
-					b.AddUint16(uint16(fullLength))
-					b.AddUint16(uint16(exLen))
-					b.AddBytes(m.extendedRandom)
+					b.AddUint16LengthPrefixed(func(b *cryptobyte.Builder) {
+						b.AddBytes(m.extendedRandom)
+					})
 				})
 			}
 			if m.extendedMasterSecret {
